@@ -43,7 +43,7 @@ PROPS = {
                 gens=[(GROUPS, "exh", 0.4), (TRACKED + GROUPS, "mt", 0.3), (["join", "try_join", "merge", "zip"], "exh", 0.5), (TRACKED, "random", 1.0), (GROUPS, "random", 0.5), (GROUPS, "refill", 0.3), (TRACKED, "stuck", 0.3),
                       (["join", "try_join", "merge", "zip"], "big", 0.05)],
                 assumptions=COMMON_ASSUME),
-    "C20": dict(monitors=["C20", "LV"], monitor="C20", proj="C20", modules=["C20", "C20g", "C20live"], cfgs=ALL3V, ks=True, quick=900, thorough=12000,
+    "C20": dict(monitors=["C20", "LV"], monitor="C20", proj="C20", modules=["C20", "C20g", "C20live", "C20liveG"], cfgs=ALL3V, ks=True, quick=900, thorough=12000,
                 gens=[(GROUPS, "exh", 0.3), (["join", "try_join", "merge", "zip"] + GROUPS, "mt", 0.3), (CONC, "drain", 0.5), (GROUPS, "drain", 0.3), (["join", "try_join", "race", "race_ok", "merge", "zip"], "exh", 0.4), (CONC, "random", 1.0), (GROUPS, "random", 0.5), (GROUPS, "refill", 0.5), (CONC + GROUPS, "stuck", 0.6)],
                 assumptions=COMMON_ASSUME),
     "C04": dict(monitors=["C04", "NP", "LV"], monitor="C04", modules=["C04", "C04state", "C01"], proj="FUN", ps=True, cfgs=ALL3, quick=1500, thorough=20000,
